@@ -49,6 +49,7 @@ type w3Body struct {
 	FrameMs     int64      `json:"frame_ms"`
 	GOP         int        `json:"gop"`
 	AudioMs     int64      `json:"audio_ms"`
+	AudioLagMs  int64      `json:"audio_lag_ms,omitempty"` // audio units reach the stream that much later than video units of the same time
 	SegmentMs   int64      `json:"segment_ms"`
 	PartMs      int64      `json:"part_ms"`
 	MaxPartSize int        `json:"max_part_size"`
@@ -75,6 +76,9 @@ func (w *w3World) Gen(rng *rand.Rand, property, tier string) (any, simrt.Sched) 
 		CrashSeed:   rng.Int63(),
 	}
 	b.Audio = !b.Video || rng.Intn(3) != 0
+	if b.Video && b.Audio {
+		b.AudioLagMs = []int64{0, 0, 30, 250, 700}[rng.Intn(5)]
+	}
 	nph := 1 + rng.Intn(3)
 	for i := 0; i < nph; i++ {
 		ph := w3Phase{Frames: 10 + rng.Intn(60)}
@@ -127,9 +131,15 @@ func (w *w3World) Gen(rng *rand.Rand, property, tier string) (any, simrt.Sched) 
 
 type w3Log struct{}
 
+// w3Cur is the harness of the run in progress (one run at a time per process).
+var w3Cur *w3Harness
+
 func (w3Log) Log(level logger.Level, format string, args ...any) {
 	// directory names differ between processes: keep them out of the event log
 	msg := strings.ReplaceAll(fmt.Sprintf(format, args...), os.TempDir(), "<tmp>")
+	if w3Cur != nil && strings.HasPrefix(msg, "[recorder] recording ") && strings.Contains(msg, " track") {
+		w3Cur.inst++
+	}
 	simrt.Rec("log", msg, "", int64(level), 0, 0)
 }
 
@@ -157,6 +167,9 @@ type w3Harness struct {
 	dir     string
 	written []w3Written
 	created []string
+	inst    int            // recorder instances started so far (a write error or a time jump restarts the recorder)
+	segInst map[string]int // segment file -> recorder instance that created it
+	twice   map[string]bool // segment files the recorder created more than once (the later creation truncates the earlier file)
 	done    []string
 	ntpBase time.Time
 }
@@ -197,6 +210,21 @@ func (h *w3Harness) record() bool {
 		PathName:        "cam",
 		Stream:          strm,
 		OnSegmentCreate: func(p string) {
+			for _, c := range h.created {
+				if c == p {
+					if h.twice == nil {
+						h.twice = map[string]bool{}
+					}
+					if !h.twice[filepath.Base(p)] {
+						h.twice[filepath.Base(p)] = true
+						simrt.Rec("seg.created-twice", filepath.Base(p), "", 0, 0, 0)
+					}
+				}
+			}
+			if h.segInst == nil {
+				h.segInst = map[string]int{}
+			}
+			h.segInst[filepath.Base(p)] = h.inst
 			h.created = append(h.created, p)
 			simrt.Rec("seg.create", filepath.Base(p), "", 0, 0, 0)
 		},
@@ -234,12 +262,16 @@ func (h *w3Harness) record() bool {
 			// next event in time order: video frame or audio frame
 			vt := time.Duration(vFrame) * time.Duration(b.FrameMs) * time.Millisecond
 			at := time.Duration(aFrame) * time.Duration(b.AudioMs) * time.Millisecond
-			isVideo := b.Video && (!b.Audio || vt <= at)
+			// units are written in arrival order; audio may lag behind video of the same time
+			atArr := at + time.Duration(b.AudioLagMs)*time.Millisecond
+			isVideo := b.Video && (!b.Audio || vt <= atArr)
 			t := at
+			arr := atArr
 			if isVideo {
 				t = vt
+				arr = vt
 			}
-			if d := t - elapsed(); d > 0 {
+			if d := arr - elapsed(); d > 0 {
 				time.Sleep(d)
 			}
 			id := nextID
@@ -293,6 +325,7 @@ func (w *w3World) Run(t *testing.T, sc *simrt.Scenario, cfg simrt.Config) simrt.
 		b.GOP = 1
 	}
 	h := &w3Harness{b: &b, prop: sc.Property}
+	w3Cur = h
 	an := &w3Analysis{h: h, prop: sc.Property}
 	res := simrt.Run(t, cfg, func() {
 		// a fixed name under the worker's private TMPDIR (one run at a time per process)
